@@ -9,6 +9,7 @@
 (*   pf     fields of ScenarioID.from_benchmark_id(str(id), id.scenario_version)   *)
 (*   eq_op / eq_po   original == parsed, parsed == original (0/1)                  *)
 (*   retoks tokens of str(parsed) resp. benchmark_id of the re-read Solution       *)
+(*   fld, b present on events recorded after `obj.<fld> = <value of fld in id b>` *)
 (*   lib    1 iff ScenarioID.benchmark_id_pattern fully matches str(id)            *)
 (*   got_*  fields of the Solution returned by CommonRoadSolutionReader.fromstring *)
 (*          (route "reader") or by _parse_benchmark_id/_parse_vehicle_id ("direct")*)
@@ -18,21 +19,27 @@ Traces == ndJsonDeserialize(IOEnv.TRACE_FILE)
 VARIABLES tid, l, err
 tvars == <<tid, l, err>>
 
-SolIn(e) == [vs |-> e.vs, cs |-> e.cs, f |-> e.f]
+(* events recorded after an assignment `object.<fld> = value of that field in id b` carry fld and b; the id the
+   object then is, is computed here *)
+FOf(e)   == IF "fld" \in DOMAIN e THEN After(e.f, e.fld, e.b) ELSE e.f
+SolIn(e) == [vs |-> e.vs, cs |-> e.cs, f |-> FOf(e)]
 
 Clause(e) ==
   CASE e.op = "construct" ->
          IF ~Valid(e.f) THEN "driver/invalid-id-case"
          ELSE IF e.res # "ok" THEN "C13.Total/construct" ELSE ""
+    [] e.op = "set" ->            \* the object (printed once before) gets one field assigned
+         IF ~ValidSet(e.f, e.fld, e.b) THEN "driver/invalid-set-case"
+         ELSE IF e.res # "ok" THEN "C13.Total/set" ELSE ""
     [] e.op = "print" ->
          IF e.res # "ok" THEN "C13.Total/print"
-         ELSE IF e.toks # PrintId(e.f) THEN "C13.Print" ELSE ""
+         ELSE IF e.toks # PrintId(FOf(e)) THEN "C13.Print" ELSE ""
     [] e.op = "grammar" ->
          IF ~Accepts(IdGrammar, e.toks) THEN "C13.Grammar"
          ELSE IF e.lib # 1 THEN "C13.Grammar/library-pattern" ELSE ""
     [] e.op = "parse" ->
          IF e.res # "ok" THEN "C13.Total/parse"
-         ELSE IF ~SameId(e.pf, Normalize(e.f)) THEN "C13.ParseFields" ELSE ""
+         ELSE IF ~SameId(e.pf, Normalize(FOf(e))) THEN "C13.ParseFields" ELSE ""
     [] e.op = "eq" ->
          IF e.res # "ok" THEN "C13.Total/eq"
          ELSE IF e.eq_op # 1 \/ e.eq_po # 1 THEN "C13.ParseEqual" ELSE ""
@@ -51,9 +58,9 @@ Clause(e) ==
          IF e.res # "ok" THEN "C13.Total/" \o (IF e.route = "reader" THEN "sol_read" ELSE "sol_parse")
          ELSE CASE e.field = "vehicles"    -> IF e.got_vs # e.vs THEN "C13.Sol/Parse/vehicles" ELSE ""
                 [] e.field = "costs"       -> IF e.got_cs # e.cs THEN "C13.Sol/Parse/costs" ELSE ""
-                [] e.field = "scenario_id" -> IF ~SameId(e.got_f, Normalize(e.f)) \/ e.eq_op # 1 \/ e.eq_po # 1
+                [] e.field = "scenario_id" -> IF ~SameId(e.got_f, Normalize(FOf(e))) \/ e.eq_op # 1 \/ e.eq_po # 1
                                               THEN "C13.Sol/Parse/scenario_id" ELSE ""
-                [] e.field = "version"     -> IF e.got_ver # e.f.ver THEN "C13.Sol/Parse/version" ELSE ""
+                [] e.field = "version"     -> IF e.got_ver # FOf(e).ver THEN "C13.Sol/Parse/version" ELSE ""
                 [] OTHER -> "machinery/unknown-field"
     [] e.op = "sol_reprint" ->
          IF e.res # "ok" THEN "C13.Total/sol_reprint"
